@@ -250,7 +250,7 @@ class Fn(object):
             return ('Ref', self.tr.want('ctx', 'close'))
         # self.<method>(...) resolved on the real class
         if isinstance(f, ast.Attribute) and isinstance(f.value, ast.Name) and f.value.id == 'self':
-            name = self.resolve(f.attr)
+            name = self.resolve(f.attr, c, self)
             if name is not None:
                 return ('Ref', name)
         # super(X, self).__init__(...)  in a context constructor
@@ -753,7 +753,7 @@ class Translator(object):
                 if not isinstance(fn, ast.FunctionDef):
                     raise TranslateError('Application.process_request not found')
                 self.sig(fn, ['self', 'ctx'])
-                return Fn(self, fn, 'app', ['ctx'], lambda a: None, where='Application.process_request').block(fn.body)
+                return Fn(self, fn, 'app', ['ctx'], lambda a, c=None, t=None: None, where='Application.process_request').block(fn.body)
             return self.define('g_process_request', build)
         if owner == 'ctx' and attr == 'close':
             def build():
@@ -764,7 +764,7 @@ class Translator(object):
                 for c in ('HttpMethodContext', 'WsgiMethodContext'):
                     if self.class_member(self.ctx_classes[c][0], c, 'close') is not None:
                         raise TranslateError('%s overrides close' % c)
-                return Fn(self, fn, 'ctx', ['self'], lambda a: None, lenient=True,
+                return Fn(self, fn, 'ctx', ['self'], lambda a, c=None, t=None: None, lenient=True,
                           where='MethodContext.close').block(fn.body)
             return self.define('g_close', build)
         if owner == 'ctx' and attr == '__init__':
@@ -788,7 +788,7 @@ class Translator(object):
         def build():
             if fn.args.args[0].arg != 'self':
                 raise TranslateError('%s.__init__: first parameter is not self' % c)
-            t = Fn(self, fn, 'ctx', ['self'], lambda a: None, lenient=True, where='%s.__init__' % c)
+            t = Fn(self, fn, 'ctx', ['self'], lambda a, c=None, t=None: None, lenient=True, where='%s.__init__' % c)
             term = t.block(fn.body)
             if c == 'MethodContext':
                 # the descriptor starts as None and no fire_event precedes the end of the constructor
@@ -835,12 +835,12 @@ class Translator(object):
             self.sig(fn, params)
             cname = self.server_chain[i][1]
 
-            def resolve(a):
+            def resolve(a, call=None, caller=None):
                 if a.startswith('__') and not a.endswith('__'):
                     key = '_%s%s' % (cname, a)
                 else:
                     key = a
-                return self.server_program(key, i)
+                return self.server_program(key, i) or self.server_helper(a, call, caller)
             return Fn(self, fn, 'server', ctx_names, resolve, where='%s.%s' % (cname, attr)).block(fn.body)
         return self.define(coq_name, build)
 
@@ -876,6 +876,43 @@ class Translator(object):
             self.server_chain[r[0]][1], fn.name)
         coq, params, cn = self.SERVER_PROGRAMS.get(real, (coq, params, cn))
         return self.server_fn(attr, coq, params, start, cn)
+
+    def server_helper(self, attr, call, caller):
+        """self.<attr>(..., ctx, ...) for a plain method of the server classes that is not one of the
+        named programs: translated on demand (strictly), so that a refactoring which moves
+        statements of the pipeline into a helper method is followed"""
+        if call is None or caller is None or (attr.startswith('__') and not attr.endswith('__')):
+            return None
+        r = self.server_lookup(attr, 0)
+        if r is None:
+            return None
+        i, fn = r
+        decos = [unparse(d) for d in fn.decorator_list]
+        if any(d != 'staticmethod' for d in decos):
+            return None
+        if any(isinstance(x, (ast.Yield, ast.YieldFrom)) for x in ast.walk(fn)):
+            return None
+        params = [a.arg for a in fn.args.args]
+        if 'staticmethod' not in decos:
+            if not params or params[0] != 'self':
+                return None
+            params = params[1:]
+        if fn.args.vararg or fn.args.kwarg or fn.args.kwonlyargs:
+            return None
+        cps = [q for q in params if q in ('ctx', 'p_ctx')]
+        if len(cps) != 1 or call.keywords:
+            return None
+        pos = params.index(cps[0])
+        if len(call.args) <= pos or not caller.is_ctx(call.args[pos]):
+            return None
+        cname = self.server_chain[i][1]
+
+        def build():
+            def resolve(a, c=None, t=None):
+                key = '_%s%s' % (cname, a) if a.startswith('__') and not a.endswith('__') else a
+                return self.server_program(key, i) or self.server_helper(a, c, t)
+            return Fn(self, fn, 'server', cps, resolve, where='%s.%s' % (cname, attr)).block(fn.body)
+        return self.define('g_h_' + attr, build)
 
     # ---- small tables
     def ctx_fire_parts(self):
